@@ -34,7 +34,7 @@ SETDATA_MUT = {'add', 'remove', 'discard', 'clear', 'update', 'difference_update
                'symmetric_difference_update'}
 
 
-def run(ctx):
+def run(ctx, P='C10', cache_only=False):
     repo, cg = ctx.repo, ctx.cg
     core = repo.mod('pony.orm.core')
     SC = repo.cls('pony.orm.core', 'SessionCache')
@@ -46,24 +46,24 @@ def run(ctx):
         g = cg.cfg(fn)
         for node, recv, kind, outer in uses:
             if kind not in ('read', 'fill'): continue
-            if recv is None: ctx.need(False, 'C10-A: unreadable receiver of query_results in %s' % fn.full)
+            if recv is None: ctx.need(False, P + '-A: unreadable receiver of query_results in %s' % fn.full)
             guards = nodes_calling(g, lambda c: is_call_to(c, recv, PREP))
             if kind == 'fill':
                 guards = guards + nodes_calling(g, lambda c: isinstance(c.func, ast.Attribute) and c.func.attr == '_exec_sql')
                 fills += 1
             else: reads += 1
             sites = cfg_node_of(g, node)
-            ctx.need(sites, 'C10-A: cannot place %s in CFG of %s' % (norm(outer), fn.full))
+            ctx.need(sites, P + '-A: cannot place %s in CFG of %s' % (norm(outer), fn.full))
             bad = [s for s in sites if not g.dominated(s, guards)]
             detail = ''
             if bad:
                 p = g.path(g.entry, bad[0], avoid=guards)
                 detail = ('result cache %s at line %d is reachable without %s.%s(): %s' %
                           ('read' if kind == 'read' else 'store', bad[0].lineno, recv, PREP, g.fmt_path(p)))
-            ctx.ob('C10-A.result-cache-%s-after-autoflush' % kind, fn, outer, not bad, detail,
+            ctx.ob(P + '-A.result-cache-%s-after-autoflush' % kind, fn, outer, not bad, detail,
                    expected='%s.%s() on every path before the access' % (recv, PREP))
-    ctx.floor('C10-A', reads, 2, 'result-cache reads')
-    ctx.floor('C10-A', fills, 2, 'result-cache stores')
+    ctx.floor(P + '-A', reads, 2, 'result-cache reads')
+    ctx.floor(P + '-A', fills, 2, 'result-cache stores')
 
     # ---------------------------------------------------------------- C
     prep = repo.fn('pony.orm.core', 'SessionCache.' + PREP)
@@ -91,35 +91,35 @@ def run(ctx):
             extra = [norm(c) for c in conj if norm(c) not in allowed]
             if extra: ok = False; detail = 'auto-flush test has extra condition(s) %s' % extra
     else: detail = 'no `if ... %s.modified: %s.flush()` found' % (recv, recv)
-    ctx.ob('C10-C.autoflush-on-every-exit', prep, tests[0].stmt if tests else prep.node, ok, detail,
+    ctx.ob(P + '-C.autoflush-on-every-exit', prep, tests[0].stmt if tests else prep.node, ok, detail,
            expected='if not cache.noflush_counter and cache.modified: cache.flush() on every normal path')
 
     ex = repo.fn('pony.orm.core', 'Database._exec_sql')
     g = cg.cfg(ex)
     execs = nodes_calling(g, lambda c: isinstance(c.func, ast.Attribute) and c.func.attr == 'execute')
     preps = nodes_calling(g, lambda c: isinstance(c.func, ast.Attribute) and c.func.attr == PREP)
-    ctx.floor('C10-C', len(execs), 1, 'provider.execute sites in _exec_sql')
+    ctx.floor(P + '-C', len(execs), 1, 'provider.execute sites in _exec_sql')
     for e in execs:
         ok = g.dominated(e, preps)
-        ctx.ob('C10-C.exec-after-prepare', ex, e.ast, ok,
+        ctx.ob(P + '-C.exec-after-prepare', ex, e.ast, ok,
                '' if ok else 'statement executed without %s()' % PREP, node=e.ast)
 
     fl = repo.fn('pony.orm.core', 'SessionCache.flush')
     g = cg.cfg(fl); recv = fl.recv
     clears = nodes_calling(g, lambda c: is_call_to(c, recv + '.query_results', 'clear'))
     emit = nodes_calling(g, lambda c: isinstance(c.func, ast.Attribute) and c.func.attr in ('_save_', 'remove_m2m', 'add_m2m'))
-    ctx.floor('C10-C', len(emit), 3, 'statement-emitting calls in SessionCache.flush')
+    ctx.floor(P + '-C', len(emit), 3, 'statement-emitting calls in SessionCache.flush')
     for e in emit:
         ok = g.dominated(e, clears)
-        ctx.ob('C10-C.flush-clears-result-cache-first', fl, e.ast, ok,
+        ctx.ob(P + '-C.flush-clears-result-cache-first', fl, e.ast, ok,
                '' if ok else 'flush emits statements at line %d without clearing query_results first' % e.lineno, node=e.ast)
 
     hooks = nodes_calling(g, lambda c: isinstance(c.func, ast.Attribute) and c.func.attr == '_before_save_')
-    ctx.floor('C10-C', len(hooks), 1, 'before-save hook calls in SessionCache.flush')
+    ctx.floor(P + '-C', len(hooks), 1, 'before-save hook calls in SessionCache.flush')
     for h in hooks:
         # user hooks may run queries (with flushing disabled) whose results are cached: the clear must come after them
         ok = g.must_pass_after(h, clears, exits=emit)
-        ctx.ob('C10-C.result-cache-cleared-after-hooks', fl, h.ast, ok,
+        ctx.ob(P + '-C.result-cache-cleared-after-hooks', fl, h.ast, ok,
                '' if ok else 'statements are emitted after the before_* hooks without clearing query_results in between: a query '
                'run inside a hook (pre-flush view) stays cached and answers the same query after the flush', node=h.ast)
 
@@ -128,12 +128,13 @@ def run(ctx):
     dml = [n for n in nodes_calling(g, lambda c: isinstance(c.func, ast.Attribute) and c.func.attr == '_exec_sql')]
     clears = nodes_calling(g, lambda c: isinstance(c.func, ast.Attribute) and c.func.attr == 'clear'
                            and dotted(c.func.value) and dotted(c.func.value).endswith('.query_results'))
-    ctx.floor('C10-C', len(dml), 1, 'bulk delete statement')
+    ctx.floor(P + '-C', len(dml), 1, 'bulk delete statement')
     for d in dml:
         ok = g.must_pass_after(d, clears, exits=[g.exit])
-        ctx.ob('C10-C.bulk-delete-clears-result-cache', qd, d.ast, ok,
+        ctx.ob(P + '-C.bulk-delete-clears-result-cache', qd, d.ast, ok,
                '' if ok else 'bulk DELETE returns without clearing the session result cache', node=d.ast)
 
+    if cache_only: return
     # ---------------------------------------------------------------- B
     run_count_pairing(ctx)
     # ---------------------------------------------------------------- D
